@@ -46,7 +46,7 @@ C == INSTANCE Components WITH
        FAdd <- SAdd, FSub <- SSub, FMul <- SMul, FNeg <- SNeg, FInv <- SInv, FInt <- SInt,
        FBit <- SBit, FShr <- SShr, FLow <- SLow, FPow2 <- SPow2,
        NB <- NBits, EdD <- D, ScalarBits <- SBits, OrderM1 <- Q - 1,
-       OrderBits <- BitsOfInt(Q, SBits), EightInvBits <- BitsOfInt(InvModQ(8 % Q), SBits)
+       OrderBits <- BitsOfInt(Q, SBits), EightInvBits <- BitsOfInt(InvModQ(8 % Q), SBits), AdvMode <- "honest"
 
 G == INSTANCE Gates WITH FAdd <- SAdd, FSub <- SSub, FMul <- SMul, FNeg <- SNeg,
                          FInt <- SInt, EdD <- D
